@@ -510,8 +510,10 @@ var c05HostSeq int
 
 func c05NextHost() string { c05HostSeq++; return fmt.Sprintf("c%d.example.com", c05HostSeq) }
 
-// c05ProbeReader feeds a fixed prefix to the REAL stream sniffer and notes whether it asked for more.
-type c05ProbeReader struct {
+// c05ProbeConn feeds a fixed prefix to the REAL stream sniffer and notes whether it asked for more.  It is a
+// (trivial) net.Conn with working SetReadDeadline, so the sniffer takes its synchronous read-deadline path:
+// no goroutines, no context deadline, nothing depends on wall-clock time or load.
+type c05ProbeConn struct {
 	data []byte
 	off  int
 	more bool
@@ -519,7 +521,7 @@ type c05ProbeReader struct {
 
 var errC05ProbeStop = errors.New("probe: no more data")
 
-func (r *c05ProbeReader) Read(p []byte) (int, error) {
+func (r *c05ProbeConn) Read(p []byte) (int, error) {
 	if r.off < len(r.data) {
 		n := copy(p, r.data[r.off:])
 		r.off += n
@@ -528,12 +530,19 @@ func (r *c05ProbeReader) Read(p []byte) (int, error) {
 	r.more = true
 	return 0, errC05ProbeStop
 }
+func (r *c05ProbeConn) Write(p []byte) (int, error)      { return len(p), nil }
+func (r *c05ProbeConn) Close() error                     { return nil }
+func (r *c05ProbeConn) LocalAddr() net.Addr              { return &net.TCPAddr{} }
+func (r *c05ProbeConn) RemoteAddr() net.Addr             { return &net.TCPAddr{} }
+func (r *c05ProbeConn) SetDeadline(time.Time) error      { return nil }
+func (r *c05ProbeConn) SetReadDeadline(time.Time) error  { return nil }
+func (r *c05ProbeConn) SetWriteDeadline(time.Time) error { return nil }
 
 // c05NeedMore asks the real SniffTcp (real sniffer order) whether a buffer holding exactly `prefix`
 // makes it read again, i.e. whether the verdict is ErrNeedMore.
 func c05NeedMore(prefix []byte) bool {
-	pr := &c05ProbeReader{data: prefix}
-	sn := sniffing.NewStreamSniffer(pr, time.Second)
+	pr := &c05ProbeConn{data: prefix}
+	sn := sniffing.NewStreamSniffer(pr, time.Hour)
 	_, _ = sn.SniffTcp()
 	_ = sn.Close()
 	return pr.more
